@@ -20,6 +20,7 @@ import (
 	"context"
 	"fmt"
 	"io"
+	"math"
 	"strings"
 	"sync"
 
@@ -35,6 +36,9 @@ import (
 // added to the graph. The int value returns the number of triples added.
 func ReadIntoGraph(ctx context.Context, g storage.Graph, r io.Reader, b literal.Builder) (int, error) {
 	cnt, scanner := 0, bufio.NewScanner(r)
+	// Text and blob literals are unbounded, so lines can exceed the default
+	// token limit of the scanner.
+	scanner.Buffer(make([]byte, 0, bufio.MaxScanTokenSize), math.MaxInt)
 	scanner.Split(bufio.ScanLines)
 	for scanner.Scan() {
 		text := strings.TrimSpace(scanner.Text())
@@ -47,6 +51,9 @@ func ReadIntoGraph(ctx context.Context, g storage.Graph, r io.Reader, b literal.
 		}
 		cnt++
 		g.AddTriples(ctx, []*triple.Triple{t})
+	}
+	if err := scanner.Err(); err != nil {
+		return cnt, err
 	}
 	return cnt, nil
 }
